@@ -1,22 +1,8 @@
-// ---- ghost vocabulary for the byte-wise iterators: output chains and spec streams over the DA ----
-spec fn out_parent<V>(o: Output<V>) -> nat { match o.parent { None => 0, Some(p) => p@ as nat } }
-spec fn opt_n(o: Option<NonZeroU32>) -> nat { match o { None => 0, Some(p) => p@ as nat } }
-
+// ---- ghost vocabulary for the byte-wise iterators: spec streams over the DA ----
+//@include ghost_chain.rs
 spec fn outs_ok<V>(st: Seq<State>, outs: Seq<Output<V>>) -> bool {
     &&& forall|i: int| 0 <= i < st.len() ==> st_opos(#[trigger] st[i]) <= outs.len()
     &&& forall|j: int| 0 <= j < outs.len() ==> out_parent(#[trigger] outs[j]) <= j
-}
-
-spec fn mk_match<V>(o: Output<V>, end: nat) -> Match<V> {
-    Match { length: o.length as usize, end: end as usize, value: o.value }
-}
-
-// the output list headed by 1-based position o: the pattern itself, then its registered suffixes
-spec fn chain<V>(outs: Seq<Output<V>>, o: nat, end: nat) -> Seq<Match<V>>
-    decreases o
-{
-    if o == 0 || o > outs.len() || out_parent(outs[o - 1]) >= o { Seq::empty() }
-    else { seq![mk_match(outs[o - 1], end)] + chain(outs, out_parent(outs[o - 1]), end) }
 }
 
 // all matches the overlapping search still has to report from state s with `rest` unread, k bytes read
